@@ -837,3 +837,235 @@ def roundtrip_units():
 
 
 ALL.append(roundtrip_units)
+
+
+# ----------------------------------------------------------------------------- C13 mechanism: txn_scope, recorder._record, store.transaction
+TS = "stabilize.events.txn_scope:"
+
+
+def scope_registry(contract_scope_fns=False):
+    from pyvc.values import SModel
+
+    reg = queue_registry()
+
+    def local_obj(I):
+        o = I.st.ghost.get("txn_local")
+        if o is None:
+            o = T.new_model_obj(I, "$thread_local", "_local")
+            I.st.ghost["txn_local"] = o
+        return o
+
+    reg.consts[("stabilize.events.txn_scope", "_local")] = local_obj
+
+    def get_bus(I, a, k):
+        b = I.st.ghost.get("bus")
+        if b is None:
+            b = T.new_model_obj(I, "EventBus", "bus")
+
+            def publish(I2, a2, k2):
+                I2.st.emit("publish", event=a2[0])
+                if I2.st.choose("publish_raises"):
+                    I2.raise_builtin("RuntimeError", "subscriber failed")
+                return SNone
+
+            I.st.objs[b.oid].fields["publish"] = SModel(publish, None, "publish")
+            I.st.ghost["bus"] = b
+        return b
+
+    reg.contracts["stabilize.events.bus:get_event_bus"] = get_bus
+    if contract_scope_fns:
+        for n in ("begin_store_transaction", "commit_store_transaction", "abort_store_transaction"):
+            reg.contracts[TS + n] = (lambda nm: (lambda I, a, k: (I.st.emit("scope", op=nm, args=list(a)), SNone)[1]))(n)
+    return reg
+
+
+def _bind_scope(ctx, depth_sym=True):
+    """Pre-state: a scope is bound to the thread with symbolic depth >= 1 and a symbolic pending list."""
+    I = ctx.I
+    from pyvc.typesys import fresh_value
+
+    ci = I.index.find_class("TxnScope")
+    oid = I.st.new_id()
+    rec = ObjRec(ci.name, ci, {}, {"name": "scope"})
+    I.st.objs[oid] = rec
+    d = z3.Int("scope_depth")
+    I.st.assume(d >= 1)
+    rec.fields["depth"] = SInt(d)
+    base_pending = fresh_value(I.st, I.typer, ("list", ("obj", "Event")), "pending", det=True)
+    rec.fields["pending"] = base_pending if ctx.unit.name.endswith("_transaction") else I.ops.new_derived(I.ops.segments(base_pending))
+    rec.fields["connection"] = SQL.new_connection(I, "scope_conn")
+    rec.fields["url"] = SOpt(SStr(z3.Int("scope_url")), z3.Bool("scope_url?"))
+    local = I.registry.consts[("stabilize.events.txn_scope", "_local")](I)
+    I.st.objs[local.oid].fields["scope"] = SOpt(SObj(oid), z3.Bool("no_scope_bound"))
+    ctx.extra["scope"] = SObj(oid)
+    ctx.extra["local"] = local
+
+
+def _commit_scope_post(ctx):
+    """commit_store_transaction publishes the pending events exactly once, in order, only when the outermost block
+    commits (depth reaches 0), and unbinds the scope; a nested commit only decrements; a failing subscriber is isolated."""
+    I = ctx.I
+    if ctx.exc is not None:
+        return [("no-exception", FALSE)]
+    nobound = z3.Bool("no_scope_bound")
+    d = z3.Int("scope_depth")
+    pubs = [e for e in ctx.st.effects if e.kind in ("publish", "foreach")]
+    scope = ctx.extra["scope"]
+    local = I.st.objs[ctx.extra["local"].oid]
+    cur = local.fields.get("scope")
+    unbound_now = I.ops.is_none(cur)
+    goals = []
+    pending = I.st.objs[scope.oid].fields["pending"]
+    fe = [e for e in ctx.st.effects if e.kind == "foreach" and e.data["lid"] == pending.lid]
+    if fe:
+        goals.append(("publishes-only-at-outermost-commit", z3.And(z3.Not(nobound), d == 1)))
+        j = fresh_int("pj")
+        once = z3.Sum([z3.If(z3.And(j < e.data["hi"], z3.substitute(e.data["cond"], (e.data["g"], j))), 1, 0) for e in fe]) == 1
+        goals.append(("publishes-every-pending-event-once", z3.Implies(z3.And(j >= 0, j < I.ops.list_len(pending)), once)))
+        b = [x for x in fe[0].data["body"] if x.kind == "publish"]
+        goals.append(("publishes-the-pending-event", z3.BoolVal(len(b) == 1 and isinstance(b[0].data["event"], SElem) and b[0].data["event"].lid == pending.lid)))
+        goals.append(("scope-unbound", unbound_now))
+    else:
+        goals.append(("silent-only-when-nested-unbound-or-empty", z3.Or(nobound, d > 1, I.ops.list_len(pending) == 0)))
+        goals.append(("nested-commit-keeps-scope", z3.Implies(z3.And(z3.Not(nobound), d > 1), z3.And(z3.Not(unbound_now),
+                      I.ops.as_int(I.st.objs[scope.oid].fields["depth"]) == d - 1))))
+    return goals
+
+
+def _abort_scope_post(ctx):
+    I = ctx.I
+    if ctx.exc is not None:
+        return [("no-exception", FALSE)]
+    d = z3.Int("scope_depth")
+    nobound = z3.Bool("no_scope_bound")
+    local = I.st.objs[ctx.extra["local"].oid]
+    return [("never-publishes", z3.BoolVal(not ctx.st.effects_of("publish"))),
+            ("outermost-abort-unbinds", z3.Implies(z3.And(z3.Not(nobound), d == 1), I.ops.is_none(local.fields.get("scope"))))]
+
+
+def _record_post(ctx):
+    """EventRecorderBase._record: with an active scope whose url equals the event store's connection string the append
+    uses the scope's connection; with ANY active scope publication is deferred into scope.pending and the bus is not
+    called; without a scope the event is published after the append."""
+    I = ctx.I
+    goals = []
+    apps = [e for e in ctx.st.effects if e.kind == "append"]
+    pubs = ctx.st.effects_of("publish")
+    nobound = z3.Bool("no_scope_bound")
+    conn_given = z3.Not(I.ops.is_none(ctx.args["connection"]))
+    scope = ctx.extra["scope"]
+    srec = I.st.objs[scope.oid]
+    if ctx.exc is None:
+        goals.append(("appends-once", z3.BoolVal(len(apps) == 1)))
+    active = z3.And(z3.Not(nobound), z3.Not(conn_given))
+    for e in apps:
+        used = e.data["connection"]
+        same_db = z3.And(z3.Not(srec.fields["url"].isnone), z3.Not(I.ops.is_none(ctx.extra["store_url"])),
+                         I.ops.eq(srec.fields["url"], ctx.extra["store_url"]))
+        is_scope_conn = z3.BoolVal(isinstance(used, SObj) and used.oid == srec.fields["connection"].oid)
+        goals.append(("joins-scope-connection-when-same-database", z3.Implies(z3.And(active, same_db), is_scope_conn)))
+        goals.append(("never-joins-another-database", z3.Implies(is_scope_conn, z3.And(active, same_db))))
+    publish_on = I.ops.truthy(I.getattr(ctx.self_val, "_publish_to_bus"))
+    if pubs:
+        goals.append(("publishes-now-only-without-scope", z3.And(z3.Or(nobound, conn_given), publish_on)))
+        goals.append(("publish-after-append", z3.BoolVal(bool(apps) and ctx.st.effects.index(pubs[0]) > ctx.st.effects.index(apps[0]))))
+    elif ctx.exc is None:
+        pend = srec.fields["pending"]
+        grew = z3.BoolVal(bool([w for w in I.st.lists[pend.lid].write_log if w[0] == "$append"]))
+        goals.append(("deferred-or-disabled", z3.Or(z3.Not(publish_on), z3.And(active, grew))))
+    return goals
+
+
+def _store_txn_post(ctx):
+    """SqliteWorkflowStore.transaction: scope bound before the body; normal exit: COMMIT, then publication (scope commit);
+    any exception: ROLLBACK, version restore, scope abort, and the exception propagates; never both."""
+    effs = ctx.st.effects
+    order = [(e.kind, e.data.get("op")) for e in effs if e.kind in ("scope", "db_commit", "db_rollback", "body")]
+    kinds = [f"{k}:{o}" if o else k for k, o in order]
+    goals = [("begins-before-body", z3.BoolVal(kinds[:2] == ["scope:begin_store_transaction", "body"]))]
+    if ctx.exc is None:
+        goals.append(("commit-then-publish", z3.BoolVal(kinds[2:] == ["db_commit", "scope:commit_store_transaction"])))
+    else:
+        goals.append(("rollback-then-abort", z3.BoolVal(kinds[2:] == ["db_rollback", "scope:abort_store_transaction"])))
+        goals.append(("exception-propagates", z3.BoolVal(ctx.extra.get("body_exc") is not None and ctx.exc.oid == ctx.extra["body_exc"].oid)))
+    return goals
+
+
+def c13_units():
+    from pyvc.values import SModel, fresh_bool
+
+    out = []
+    reg = scope_registry()
+    common = dict(names=STATUS_NAMES, replayable=False, params=[])
+    out.append(Unit(prop="*", name="L1/txn_scope.commit_store_transaction", func=TS + "commit_store_transaction", registry=reg,
+                    setup=_bind_scope, obligations=[Obl("C13/scope/commit", _commit_scope_post, when="any")], **common))
+    out.append(Unit(prop="*", name="L1/txn_scope.abort_store_transaction", func=TS + "abort_store_transaction", registry=reg,
+                    setup=_bind_scope, obligations=[Obl("C13/scope/abort", _abort_scope_post, when="any")], **common))
+
+    # _record
+    reg2 = scope_registry()
+    reg2.contracts[TS + "current_scope"] = lambda I, a, k: I.st.objs[I.registry.consts[("stabilize.events.txn_scope", "_local")](I).oid].fields["scope"]
+
+    def make_recorder(ctx):
+        I = ctx.I
+        _bind_scope(ctx)
+        ci = I.index.find_class("EventRecorderBase")
+        oid = I.st.new_id()
+        rec = ObjRec(ci.name, ci, {}, {"name": "recorder", "symbolic": True})
+        I.st.objs[oid] = rec
+        es = T.new_model_obj(I, "EventStore", "event_store")
+        url = SOpt(SStr(z3.Int("event_store_url")), z3.Bool("event_store_url?"))
+        ctx.extra["store_url"] = url
+        I.st.objs[es.oid].fields["_connection_string"] = url
+
+        def append(I2, a2, k2):
+            I2.st.emit("append", event=a2[0], connection=k2.get("connection", SNone))
+            if I2.st.choose("append_raises"):
+                I2.raise_builtin("RuntimeError", "append failed")
+            return a2[0]
+
+        I.st.objs[es.oid].fields["append"] = SModel(append, None, "append")
+        rec.fields["_event_store"] = es
+        rec.fields["_publish_to_bus"] = SBool(z3.Bool("publish_to_bus"))
+        return SObj(oid)
+
+    out.append(Unit(prop="*", name="L1/EventRecorderBase._record", func="stabilize.events.recorder.base:EventRecorderBase._record",
+                    registry=reg2, self_type=make_recorder, names=STATUS_NAMES, replayable=False,
+                    params=[("event", ("obj", "Event")), ("connection", lambda ctx: SOpt(SQL.new_connection(ctx.I, "explicit"), z3.Bool("no_explicit_connection")))],
+                    obligations=[Obl("C13/record", _record_post, when="any")]))
+
+    # store.transaction
+    reg3 = scope_registry(contract_scope_fns=True)
+
+    def run_txn(ctx):
+        I = ctx.I
+        from pyvc.interp import Env
+        from .assumed_runtask import new_exception
+
+        conn = SQL.new_connection(I)
+        I.st.ghost["the_conn"] = conn
+        ci = I.index.find_class("SqliteWorkflowStore")
+        oid = I.st.new_id()
+        rec = ObjRec(ci.name, ci, {}, {"name": "store", "symbolic": True})
+        I.st.objs[oid] = rec
+        rec.fields["connection_string"] = I.ops.lit("sqlite:///x.db")
+        cm = I.call(I.getattr(SObj(oid), "transaction"), [], {})
+
+        def body():
+            I.st.emit("body")
+            if I.st.choose("body_raises"):
+                exc = new_exception(I, "body_error")
+                ctx.extra["body_exc"] = exc
+                raise PyRaise(exc)
+
+        I.with_cm(cm, None, body, Env(None, "stabilize.persistence.sqlite.store.store"))
+        return SNone
+
+    out.append(Unit(prop="*", name="L1/SqliteWorkflowStore.transaction", func=P + "store.store:SqliteWorkflowStore.transaction",
+                    registry=reg3, run=run_txn, names=STATUS_NAMES, replayable=False, params=[],
+                    obligations=[Obl("C13/store-transaction", _store_txn_post, when="any"), Obl("C01/store-transaction", _store_txn_post, when="any"),
+                                 Obl("C07/rollback-restores", _store_txn_post, when="any")]))
+    return out
+
+
+ALL.append(c13_units)
